@@ -93,3 +93,34 @@ pub fn set_mtime(path: &Path, ns: i128) {
 pub fn set_mode(path: &Path, mode: u32) {
     _ = fs::set_permissions(path, fs::Permissions::from_mode(mode));
 }
+
+/// recreate `root` from a snapshot taken by `snapshot` (files, dirs, symlinks; contents only)
+pub fn restore_tree(root: &Path, t: &FsTree) {
+    use std::os::unix::ffi::OsStrExt;
+    _ = fs::remove_dir_all(root);
+    fs::create_dir_all(root).expect("root");
+    for (p, n) in t {
+        let path = root.join(std::ffi::OsStr::from_bytes(p));
+        match n.kind.as_str() {
+            "dir" => _ = fs::create_dir_all(&path),
+            "file" => {
+                if let Some(par) = path.parent() {
+                    _ = fs::create_dir_all(par);
+                }
+                _ = fs::write(&path, n.data.as_deref().unwrap_or_default());
+            }
+            "symlink" => {
+                if let Some(par) = path.parent() {
+                    _ = fs::create_dir_all(par);
+                }
+                _ = std::os::unix::fs::symlink(std::ffi::OsStr::from_bytes(n.target.as_deref().unwrap_or_default()), &path);
+            }
+            _ => {}
+        }
+    }
+}
+
+/// content-only view (kind, data, target) for comparisons that ignore times and inodes
+pub fn content_view(t: &FsTree) -> BTreeMap<Vec<u8>, (String, Option<Vec<u8>>, Option<Vec<u8>>)> {
+    t.iter().map(|(p, n)| (p.clone(), (n.kind.clone(), n.data.clone(), n.target.clone()))).collect()
+}
